@@ -512,6 +512,12 @@ func (w *pfWorld) step(st *pfStep) M {
 			case "other":
 				v, _ := w.cipher.Marshal(&proxy.StateParameter{SessionID: "someone-else", RedirectURI: "/elsewhere"})
 				return v, true, info
+			case "own-respelled":
+				// the browser's own value, spelled differently (a line break inside the base64 text): not the sealed value
+				if len(own) > 0 {
+					v := own[len(own)-1]
+					return v[:len(v)/2] + "\n" + v[len(v)/2:], true, info
+				}
 			case "other-sid", "other-uri":
 				// a genuine record differing from the browser's own in exactly one field (another flow started on the
 				// same URL / the same flow id with another return address)
@@ -549,6 +555,10 @@ func (w *pfWorld) step(st *pfStep) M {
 			if !ok {
 				return info
 			}
+			// is this string, byte for byte, a value that was sealed (by the proxy, or by this harness with the proxy's key)?
+			// Judged without the code under test: canonical unpadded base64url text, nothing else
+			raw, derr := base64.RawURLEncoding.Strict().DecodeString(v)
+			info["asSealed"] = derr == nil && base64.RawURLEncoding.EncodeToString(raw) == v
 			sp := &proxy.StateParameter{}
 			if err := w.cipher.Unmarshal(v, sp); err != nil {
 				info["opens"] = false
